@@ -110,14 +110,14 @@ ReverseLogsF(lg) ==
       flipped == { n - a - 1 : a \in ToSet(lg.absL) }
   IN [m EXCEPT !.absL = SetToSortSeq({ a \in flipped : a >= 0 }, <)]
 
-\* deleting the entries at the (0-based) step indices in S
-DropIdx(s, S) == SelectSeq([i \in 1..Len(s) |-> <<i, s[i]>>], LAMBDA x: (x[1] - 1) \notin S)
-Drop(s, S) == [i \in 1..Len(DropIdx(s, S)) |-> DropIdx(s, S)[i][2]]
-\* intended meaning of remove_absence_time_list(): every log loses exactly the
-\* absence steps that were simulated, time becomes the common length
+\* remove_absence_time_list(): every log pops the listed (0-based) steps from the largest to the
+\* smallest, each only if it lies inside the log at that moment (a step listed twice is popped
+\* twice); time becomes the common length
+PopAt(s, i) == SubSeq(s, 1, i) \o SubSeq(s, i + 2, Len(s))
+PopAll(s, idxDesc) == FoldLeft(LAMBDA acc, a: IF a < Len(acc) THEN PopAt(acc, a) ELSE acc, s, idxDesc)
 RemoveAbsenceF(lg) ==
-  LET S == ToSet(lg.absL)
-      m == MapLogs(lg, LAMBDA s: Drop(s, S))
+  LET desc == SortSeq(lg.absL, LAMBDA a, b: a > b)
+      m == MapLogs(lg, LAMBDA s: PopAll(s, desc))
   IN [m EXCEPT !.absL = <<>>, !.time = Len(m.pcost)]
 
 \* insert_absence_time_list(L): the steps of L that are not absence steps yet are inserted in
@@ -153,7 +153,8 @@ InsertOne(cfg, lg, i) ==
              !.pc  = [p \in Wps(cfg) |-> InsAt(lg.pc[p], i, prev(lg.pc[p], <<>>))]]
 InsertAbsenceF(cfg, lg, L) ==
   LET new == SelectSeq(L, LAMBDA t: ~Mem(lg.absL, t))
-      res == FoldLeft(LAMBDA a, i: InsertOne(cfg, a, i), lg, SetToSortSeq(ToSet(new), <))
+      \* (a step listed twice in L is inserted twice)
+      res == FoldLeft(LAMBDA a, i: InsertOne(cfg, a, i), lg, SortSeq(new, LAMBDA a, b: a < b))
   IN [res EXCEPT !.time = lg.time + (Len(res.pcost) - Len(lg.pcost)), !.absL = lg.absL \o new]
 
 \* ---- backward_simulate: the model the inner simulate() runs on ---------------------------
